@@ -100,6 +100,7 @@ def _node_attrs():
         st.fixed_dictionaries({'resname': st.sampled_from(['ALA', 'GLY', 'ALA|GLY|LYS'])}),
         st.fixed_dictionaries({'cgsecstruc': st.sampled_from(['H', 'E', 'H|1|2'])}),
         st.fixed_dictionaries({'replace': st.fixed_dictionaries({'atype': st.sampled_from(['P4', 'Q5'])})}),
+        st.just({'PTM_atom': True}),
     )
 
 
@@ -133,7 +134,9 @@ def link_like_strategy(kind, name=None):
             st.sampled_from(sorted(BLOCK_SECTIONS)).flatmap(isec),
             st.sampled_from(sorted(BLOCK_SECTIONS)).flatmap(isec),
             st.fixed_dictionaries({'sec': st.just('atoms'),
-                                   'lines': st.lists(st.fixed_dictionaries({'node': idx, 'style': st.sampled_from(['prefix', 'attr', 'both'])}),
+                                   'lines': st.lists(st.fixed_dictionaries({'node': idx, 'style': st.sampled_from(['prefix', 'attr', 'both']),
+                                                                            # the atom is mentioned with all its attributes or with none of them
+                                                                            'show': st.sampled_from([True, True, False])}),
                                                      min_size=1, max_size=3)}),
         ]
         if kind == 'link':
@@ -260,7 +263,26 @@ def ref_token(node, style, lay, show_attrs=True, extra=None):
     return ref
 
 
+def _settle_atom_mentions(case):
+    """An atom of a modification that is mentioned in [ atoms ] without PTM_atom gets PTM_atom false; saying true later is a
+    redefinition, which the format forbids.  The first [ atoms ] mention of such an atom therefore states its attributes."""
+    for sec in case['sections']:
+        if sec.get('kind') != 'modification':
+            continue
+        stated = set()
+        for sub in sec['subs']:
+            if sub['sec'] != 'atoms':
+                continue
+            for line in sub['lines']:
+                node = sec['nodes'][line['node']]
+                if (node.get('attrs') or {}).get('PTM_atom') and line['node'] not in stated:
+                    line['show'] = True
+                if line.get('show', True):
+                    stated.add(line['node'])
+
+
 def serialise(case):
+    _settle_atom_mentions(case)
     lay = Layout(case['layout'])
     out = []
 
@@ -340,7 +362,7 @@ def serialise(case):
                     for line in sub['lines']:
                         node = nodes[line['node']]
                         extra = {}
-                        tok = ref_token(node, line['style'], lay, extra=extra)
+                        tok = ref_token(node, line['style'], lay, show_attrs=line.get('show', True), extra=extra)
                         if '{' not in tok:
                             tok = tok + ' {}'
                         emit([tok])
@@ -416,6 +438,7 @@ def attrs_expected(attrs):
 
 def expected(case):
     """Returns dict(blocks=[...], links=[...], modifications=[...], variables={...}) in file order."""
+    _settle_atom_mentions(case)
     macros = {}
     exp = {'blocks': [], 'links': [], 'modifications': [], 'variables': {}}
     for sec in case['sections']:
@@ -525,7 +548,8 @@ def _expected_linklike(sec):
         name = sub['sec']
         if name == 'atoms':
             for line in sub['lines']:
-                touch(line['node'], with_defaults={'PTM_atom': False} if sec['kind'] == 'modification' else None)
+                touch(line['node'], show_attrs=line.get('show', True),
+                      with_defaults={'PTM_atom': False} if sec['kind'] == 'modification' else None)
                 if sec['kind'] == 'modification':
                     nodes[node_key(nodes_desc[line['node']])].setdefault('PTM_atom', False)
         elif name == 'patterns':
